@@ -323,6 +323,20 @@ class Program:
                     m.constants[nm] = node.value
             elif isinstance(node, ast.AnnAssign) and isinstance(node.target, ast.Name) and node.value is not None:
                 m.constants[node.target.id] = node.value
+            elif isinstance(node, ast.Assign):
+                # chained and unpacking assignments at module level: A, B = C = ("a", "b")
+                for t in node.targets:
+                    if isinstance(t, ast.Name) and t.id not in m.functions and t.id not in m.imports:
+                        m.constants[t.id] = node.value
+                    elif isinstance(t, (ast.Tuple, ast.List)) and all(isinstance(e, ast.Name) for e in t.elts):
+                        for k, e in enumerate(t.elts):
+                            if isinstance(node.value, (ast.Tuple, ast.List)) and len(node.value.elts) == len(t.elts):
+                                m.constants[e.id] = node.value.elts[k]
+                            else:
+                                sub = ast.Subscript(value=node.value, slice=ast.Constant(value=k), ctx=ast.Load())
+                                ast.copy_location(sub, node.value)
+                                ast.fix_missing_locations(sub)
+                                m.constants[e.id] = sub
 
     def _index_function(self, node, m, cls, parent, prefix):
         q = f"{prefix}.{node.name}"
